@@ -3030,7 +3030,8 @@ pub fn matrix_column_elements(&mut self, column_elements: &[&MatrixColumn]) -> S
         if self.html {
           format!("<span class=\"mech-not-op\">¬</span><span class=\"mech-not\">{}</span>", self.factor(factor))
         } else {
-          format!("¬{}", self.factor(factor))
+          // `!`, not `¬`: `¬` is also an identifier character, so `f(¬:ok)` reads back as a named argument
+          format!("!{}", self.factor(factor))
         }
       }
       Factor::Transpose(factor) => {
